@@ -173,6 +173,7 @@ pub struct RealObs {
     pub data_inits: usize,
     pub data_init_failed: bool,
     pub rset_inits: usize,
+    pub rset_init_failed: Option<usize>,
     pub recycled_longer: usize,
     pub recycled_shorter: usize,
     pub result: Option<Result<bool, RealE>>,
@@ -256,6 +257,7 @@ macro_rules! per_record_apis {
                     let call = g.rset_inits;
                     g.rset_inits += 1;
                     if Some(call) == si_fail {
+                        g.rset_init_failed = Some(call);
                         return Err(Si(call));
                     }
                     Ok(call)
@@ -405,25 +407,26 @@ pub fn check_real(c: &RealCfg, o: &RealObs) -> CheckResult {
     for s in &o.sets {
         ensure!(s.windows(2).all(|w| w[1] == w[0] + 1), format!("real/{}/set-not-in-file-order", f), "a record set holds records {:?}: not consecutive in file order", s);
     }
-    let init_fault = c.api == 1 && (c.reader_init_fails || c.rset_init_fail_at.map_or(false, |j| j as usize <= c.queue_len));
     let result = o.result.as_ref().unwrap();
     let stopped = matches!(result, Ok(true));
-    if c.api == 1 && c.reader_init_fails && c.rset_init_fail_at.map_or(true, |j| j as usize > c.queue_len) {
-        ensure!(*result == Err(RealE::ReaderInit), format!("real/{}/reader-init-error-lost", f), "reader_init failed but the call returned {:?}", result);
-        return Ok(());
-    }
+    // init closures: the expectation follows the failures that were observed to happen (rset_data_init is
+    // called at most queue_len + 1 times, fewer when the reader finishes early)
     if c.api == 1 {
-        if let Some(j) = c.rset_init_fail_at.filter(|j| (*j as usize) <= c.queue_len) {
-            if !c.reader_init_fails {
-                ensure!(*result == Err(RealE::RsetInit(j as usize)), format!("real/{}/rset-init-error-lost", f), "rset_data_init failed at call {} but the call returned {:?}", j, result);
-            } else {
-                ensure!(result.is_err(), format!("real/{}/init-errors-lost", f), "two init closures failed but the call returned {:?}", result);
+        match (o.rset_init_failed, c.reader_init_fails) {
+            (Some(j), false) => {
+                ensure!(*result == Err(RealE::RsetInit(j)), format!("real/{}/rset-init-error-lost", f), "rset_data_init failed at call {} but the call returned {:?}", j, result);
+                return Ok(());
             }
-            return Ok(());
+            (Some(_), true) => {
+                ensure!(result.is_err(), format!("real/{}/init-errors-lost", f), "two init closures failed but the call returned {:?}", result);
+                return Ok(());
+            }
+            (None, true) => {
+                ensure!(*result == Err(RealE::ReaderInit), format!("real/{}/reader-init-error-lost", f), "reader_init failed but the call returned {:?}", result);
+                return Ok(());
+            }
+            (None, false) => {}
         }
-    }
-    if init_fault {
-        return Ok(());
     }
     // number of data sets
     if c.api == 1 {
